@@ -145,3 +145,235 @@ Proof.
   unfold wsc_decide, WSC. rewrite (exists_perm_dec nat (WSC_order alts ballots) _ (wsc_check_correct alts ballots)).
   split; intros (o & H); exists o; [apply H|split; [apply H|exact H]].
 Qed.
+
+(* ------------------------------------------------------------------------------------------------ *)
+(* reductions to the consecutive-ones property *)
+
+Lemma ballot_row_length alts b : length (ballot_row alts b) = length alts.
+Proof. apply map_length. Qed.
+
+Lemma ci_matrix_rows alts ballots : Forall (fun r => length r = length alts) (ci_matrix alts ballots).
+Proof.
+  unfold ci_matrix. apply Forall_forall. intros r Hr. apply in_map_iff in Hr.
+  destruct Hr as (b & <- & _). apply ballot_row_length.
+Qed.
+
+(* a row of the CI matrix read in the column order perm = the ballot read along the candidate order *)
+Lemma ballot_row_permute alts b perm :
+  Forall (fun j => j < length alts) perm ->
+  permute_row perm (ballot_row alts b) = map (fun a => mem a b) (order_of_perm alts perm).
+Proof.
+  intros H. unfold permute_row, pick, ballot_row, order_of_perm. rewrite map_map.
+  apply map_ext_in. intros j Hj. rewrite Forall_forall in H. specialize (H j Hj).
+  rewrite (nth_indep _ false (mem 0%N b)) by (rewrite map_length; exact H).
+  apply (map_nth (fun a => mem a b)).
+Qed.
+
+Lemma order_of_perm_Permutation alts perm :
+  Permutation (seq 0 (length alts)) perm -> Permutation alts (order_of_perm alts perm).
+Proof.
+  intros HP. unfold order_of_perm. rewrite <- (map_nth_seq alts 0%N) at 1. now apply Permutation_map.
+Qed.
+
+(* generic in the shape sh of the permuted 0/1 word (contig01 for CI, extremal01 for CEI) *)
+Lemma cand_reduction (sh : list bool -> bool) alts ballots :
+  (exists order, Permutation alts order /\ Forall (fun b => sh (map (fun a => mem a b) order) = true) ballots) <->
+  (exists perm, Permutation (seq 0 (length alts)) perm /\
+                Forall (fun row => sh (permute_row perm row) = true) (ci_matrix alts ballots)).
+Proof.
+  unfold ci_matrix. split.
+  - intros (order & HP & H). destruct (Permutation_index 0%N alts order HP) as (perm & Hperm & Heq).
+    exists perm. split; [exact Hperm|]. rewrite Forall_map. rewrite Forall_forall in *.
+    intros b Hb. rewrite ballot_row_permute by (apply perm_of_seq_range; exact Hperm).
+    fold (order_of_perm alts perm) in Heq. rewrite <- Heq. now apply H.
+  - intros (perm & Hperm & H). exists (order_of_perm alts perm). split.
+    + now apply order_of_perm_Permutation.
+    + rewrite Forall_map in H. rewrite Forall_forall in *. intros b Hb.
+      rewrite <- ballot_row_permute by (apply perm_of_seq_range; exact Hperm). now apply H.
+Qed.
+
+Lemma CI_bool alts ballots :
+  CI alts ballots <->
+  exists order, Permutation alts order /\ Forall (fun b => contig01 (map (fun a => mem a b) order) = true) ballots.
+Proof.
+  unfold CI. split; intros (o & H); exists o.
+  - apply ci_check_correct in H. unfold ci_check in H. apply andb_true_iff in H. destruct H as [H1 H2].
+    split; [now apply perm_of_correct|]. apply Forall_forall. now apply forallb_forall.
+  - apply ci_check_correct. unfold ci_check. apply andb_true_iff. destruct H as [H1 H2].
+    split; [now apply perm_of_correct|]. apply forallb_forall. now apply Forall_forall.
+Qed.
+
+Lemma CEI_bool alts ballots :
+  CEI alts ballots <->
+  exists order, Permutation alts order /\ Forall (fun b => extremal01 (map (fun a => mem a b) order) = true) ballots.
+Proof.
+  unfold CEI. split; intros (o & H); exists o.
+  - apply cei_check_correct in H. unfold cei_check in H. apply andb_true_iff in H. destruct H as [H1 H2].
+    split; [now apply perm_of_correct|]. apply Forall_forall. now apply forallb_forall.
+  - apply cei_check_correct. unfold cei_check. apply andb_true_iff. destruct H as [H1 H2].
+    split; [now apply perm_of_correct|]. apply forallb_forall. now apply Forall_forall.
+Qed.
+
+(* CI  <->  the matrix of instance_to_ci_matrix has the consecutive-ones property *)
+Theorem ci_reduction alts ballots : CI alts ballots <-> C1P (ci_matrix alts ballots) (length alts).
+Proof. rewrite CI_bool. apply (cand_reduction contig01). Qed.
+
+(* CEI  <->  the matrix stacked on its complement has the consecutive-ones property *)
+Theorem cei_reduction_instance alts ballots : CEI alts ballots <-> C1P (cei_matrix alts ballots) (length alts).
+Proof.
+  rewrite CEI_bool. unfold cei_matrix. rewrite (cei_reduction_c1p _ _ (ci_matrix_rows alts ballots)).
+  apply (cand_reduction extremal01).
+Qed.
+
+(* the witness translation of is_candidate_interval: a column order accepted by the C1P checker becomes a
+   candidate order accepted by the CI checker *)
+Theorem ci_witness alts ballots perm :
+  c1p_check (ci_matrix alts ballots) (length alts) perm = true ->
+  ci_check alts ballots (order_of_perm alts perm) = true.
+Proof.
+  rewrite c1p_check_correct. intros [HP H]. unfold ci_check. apply andb_true_iff. split.
+  - apply perm_of_correct. now apply order_of_perm_Permutation.
+  - apply forallb_forall. intros b Hb. rewrite <- ballot_row_permute by (apply perm_of_seq_range; exact HP).
+    rewrite Forall_forall in H. apply H. unfold ci_matrix. now apply in_map.
+Qed.
+
+(* ... of is_candidate_extremal_interval (ordered_idx[:m] is the whole column order: it has m entries) *)
+Theorem cei_witness alts ballots perm :
+  c1p_check (cei_matrix alts ballots) (length alts) perm = true ->
+  firstn (length alts) perm = perm /\ cei_check alts ballots (order_of_perm alts perm) = true.
+Proof.
+  rewrite c1p_check_correct. intros [HP H]. split.
+  - apply firstn_all2. rewrite <- (Permutation_length HP), seq_length. lia.
+  - unfold cei_matrix in H.
+    apply (cei_reduction _ _ perm (ci_matrix_rows alts ballots) (perm_of_seq_range _ _ HP)) in H.
+    unfold cei_check. apply andb_true_iff. split.
+    + apply perm_of_correct. now apply order_of_perm_Permutation.
+    + apply forallb_forall. intros b Hb. rewrite <- ballot_row_permute by (apply perm_of_seq_range; exact HP).
+      rewrite Forall_forall in H. apply (H (ballot_row alts b)). unfold ci_matrix. now apply in_map.
+Qed.
+
+(* ---- voter side: the transposed matrix ---- *)
+Lemma vi_matrix_eq alts ballots : vi_matrix alts ballots = map (fun a => map (mem a) ballots) alts.
+Proof.
+  unfold vi_matrix, transpose, ci_matrix.
+  transitivity (map (fun a => map (mem a) ballots) (map (fun i => nth i alts 0%N) (seq 0 (length alts))));
+    [|now rewrite map_nth_seq].
+  rewrite map_map. apply map_ext_in. intros j Hj.
+  apply in_seq in Hj. rewrite map_map. apply map_ext. intros b. unfold pick, ballot_row.
+  rewrite (nth_indep _ false (mem 0%N b)) by (rewrite map_length; lia).
+  apply (map_nth (fun a => mem a b)).
+Qed.
+
+Lemma vi_row_permute a ballots border :
+  permute_row border (map (mem a) ballots) = map (fun i => mem a (ballot_at ballots i)) border.
+Proof.
+  unfold permute_row, pick, ballot_at. apply map_ext. intros i.
+  change false with (mem a []). apply (map_nth (mem a)).
+Qed.
+
+Lemma forallb_map {X Y} (f : Y -> bool) (g : X -> Y) l : forallb f (map g l) = forallb (fun x => f (g x)) l.
+Proof. induction l as [|x t IH]; simpl; [reflexivity|]. now rewrite IH. Qed.
+
+Lemma forallb_ext' {X} (f g : X -> bool) l : (forall x, f x = g x) -> forallb f l = forallb g l.
+Proof. intros H. induction l as [|x t IH]; simpl; [reflexivity|]. now rewrite H, IH. Qed.
+
+(* the voter-interval checker is literally the C1P checker on the transposed matrix *)
+Theorem vi_check_c1p alts ballots border :
+  vi_check alts ballots border = c1p_check (vi_matrix alts ballots) (length ballots) border.
+Proof.
+  unfold vi_check, c1p_check. f_equal. rewrite vi_matrix_eq, forallb_map.
+  apply forallb_ext'. intros a. unfold row_contig. now rewrite vi_row_permute.
+Qed.
+
+Theorem vi_reduction alts ballots : VI alts ballots <-> C1P (vi_matrix alts ballots) (length ballots).
+Proof.
+  unfold VI, C1P. split; intros (p & H); exists p.
+  - apply vi_check_correct in H. rewrite vi_check_c1p in H. now apply c1p_check_correct.
+  - apply vi_check_correct. rewrite vi_check_c1p. now apply c1p_check_correct.
+Qed.
+
+Lemma vi_matrix_rows alts ballots : Forall (fun r => length r = length ballots) (vi_matrix alts ballots).
+Proof.
+  rewrite vi_matrix_eq. apply Forall_forall. intros r Hr. apply in_map_iff in Hr.
+  destruct Hr as (a & <- & _). apply map_length.
+Qed.
+
+Theorem vei_check_c1p alts ballots border :
+  vei_check alts ballots border = true <-> c1p_check (vei_matrix alts ballots) (length ballots) border = true.
+Proof.
+  rewrite c1p_check_correct. unfold vei_check, vei_matrix. rewrite andb_true_iff, perm_of_seq_correct.
+  split; intros [HP H]; (split; [exact HP|]).
+  - apply (cei_reduction _ _ border (vi_matrix_rows alts ballots) (perm_of_seq_range _ _ HP)).
+    rewrite vi_matrix_eq, Forall_map. apply Forall_forall. intros a Ha.
+    rewrite forallb_forall in H. specialize (H a Ha). unfold row_extremal. now rewrite vi_row_permute.
+  - apply (cei_reduction _ _ border (vi_matrix_rows alts ballots) (perm_of_seq_range _ _ HP)) in H.
+    rewrite vi_matrix_eq, Forall_map, Forall_forall in H. apply forallb_forall. intros a Ha.
+    specialize (H a Ha). unfold row_extremal in H. now rewrite vi_row_permute in H.
+Qed.
+
+Theorem vei_reduction alts ballots : VEI alts ballots <-> C1P (vei_matrix alts ballots) (length ballots).
+Proof.
+  unfold VEI, C1P. split; intros (p & H); exists p.
+  - apply vei_check_correct, vei_check_c1p in H. now apply c1p_check_correct.
+  - apply vei_check_correct, vei_check_c1p. now apply c1p_check_correct.
+Qed.
+
+(* ---- weak single-crossing: two rows per unordered pair ---- *)
+Lemma wsc_entry2_swap a b bl : wsc_entry2 a b bl = wsc_entry1 b a bl.
+Proof. unfold wsc_entry2, wsc_entry1. destruct (mem a bl), (mem b bl); reflexivity. Qed.
+
+Lemma pairs_in l a b : In (a, b) (pairs l) -> In a l /\ In b l.
+Proof.
+  induction l as [|x t IH]; simpl; [tauto|]. intros H. apply in_app_or in H. destruct H as [H|H].
+  - apply in_map_iff in H. destruct H as (y & E & Hy). injection E as <- <-. auto.
+  - destruct (IH H). auto.
+Qed.
+
+Lemma pairs_total l a b : In a l -> In b l -> a <> b -> In (a, b) (pairs l) \/ In (b, a) (pairs l).
+Proof.
+  induction l as [|x t IH]; simpl; [tauto|]. intros [Ha|Ha] [Hb|Hb] Hne.
+  - congruence.
+  - subst x. left. apply in_or_app. left. now apply in_map.
+  - subst x. right. apply in_or_app. left. now apply in_map.
+  - destruct (IH Ha Hb Hne); [left|right]; apply in_or_app; now right.
+Qed.
+
+Lemma contig01_all_false {X} (l : list X) : contig01 (map (fun _ => false) l) = true.
+Proof. induction l; simpl; auto. Qed.
+
+Lemma wsc_row_permute a b ballots border :
+  permute_row border (map (wsc_entry1 a b) ballots) =
+  map (fun i => mem a (ballot_at ballots i) && negb (mem b (ballot_at ballots i))) border.
+Proof.
+  unfold permute_row, pick, ballot_at. apply map_ext. intros i.
+  change false with (wsc_entry1 a b []). apply (map_nth (wsc_entry1 a b)).
+Qed.
+
+Theorem wsc_check_c1p alts ballots border :
+  wsc_check alts ballots border = true <-> c1p_check (wsc_matrix alts ballots) (length ballots) border = true.
+Proof.
+  rewrite c1p_check_correct. unfold wsc_check, wsc_matrix. rewrite andb_true_iff, perm_of_seq_correct.
+  rewrite Forall_flat_map, Forall_forall, forallb_forall.
+  split; intros [HP H]; (split; [exact HP|]).
+  - intros [a b] Hab. apply pairs_in in Hab. destruct Hab as [Ha Hb]. simpl.
+    assert (Hab := H a Ha). rewrite forallb_forall in Hab. specialize (Hab b Hb).
+    assert (Hba := H b Hb). rewrite forallb_forall in Hba. specialize (Hba a Ha).
+    repeat constructor; unfold row_contig.
+    + now rewrite wsc_row_permute.
+    + rewrite (map_ext _ _ (wsc_entry2_swap a b)). now rewrite wsc_row_permute.
+  - intros a Ha. apply forallb_forall. intros b Hb.
+    destruct (N.eq_dec a b) as [->|Hne].
+    + rewrite (map_ext _ (fun _ => false)); [apply contig01_all_false|].
+      intros i. now destruct (mem b (ballot_at ballots i)).
+    + destruct (pairs_total alts a b Ha Hb Hne) as [Hin|Hin]; specialize (H _ Hin); simpl in H;
+        inversion H as [|? ? H1 H']; subst; inversion H' as [|? ? H2 _]; subst; unfold row_contig in *.
+      * now rewrite wsc_row_permute in H1.
+      * rewrite (map_ext _ _ (wsc_entry2_swap b a)) in H2. now rewrite wsc_row_permute in H2.
+Qed.
+
+Theorem wsc_reduction alts ballots : WSC alts ballots <-> C1P (wsc_matrix alts ballots) (length ballots).
+Proof.
+  unfold WSC, C1P. split; intros (p & H); exists p.
+  - apply wsc_check_correct, wsc_check_c1p in H. now apply c1p_check_correct.
+  - apply wsc_check_correct, wsc_check_c1p. now apply c1p_check_correct.
+Qed.
